@@ -73,7 +73,10 @@ Definition code_ranges (r : raw) : bool :=
   match r_ft r with
   | FT | FC => in_range 1 255 (dval (opt_text (r_file r))) && in_range 0 255 (dval (r_elem r))
   | FS => in_range 0 255 (dval (r_elem r)) && optrange 0 15 (r_bit r)
-  | FI | FO => in_range 0 255 (dval (r_elem r)) && optrange 0 15 (r_bit r)
+  | FI => match r_file r with Some f => dval f =? 1 | None => true end
+          && (in_range 0 255 (dval (r_elem r)) && optrange 0 15 (r_bit r))
+  | FO => match r_file r with Some f => dval f =? 0 | None => true end
+          && (in_range 0 255 (dval (r_elem r)) && optrange 0 15 (r_bit r))
   | _ => if r_flat r then in_range 1 255 (dval (opt_text (r_file r))) && in_range 0 4095 (dval (opt_text (r_bit r)))
          else in_range 1 255 (dval (opt_text (r_file r))) && in_range 0 255 (dval (r_elem r)) && optrange 0 15 (r_bit r)
   end.
@@ -132,7 +135,7 @@ Theorem parse_raw r : raw_shape r ->
 Proof.
   intros [Hform Hlong].
   destruct r as [ft lower file elem sub bit cnt flat mn].
-  unfold raw_form in Hform. unfold overlong in Hlong. cbn [r_ft r_lower r_file r_elem r_sub r_bit r_count r_flat r_mn] in *.
+  unfold raw_form in Hform. unfold overlong, overlong_field in Hlong. cbn [r_ft r_lower r_file r_elem r_sub r_bit r_count r_flat r_mn] in *.
   destruct ft.
   - (* N *) destruct file as [f|]; destruct sub; destruct flat; cbn [longer is_some negb andb orb odigit_run] in Hform, Hlong; rewrite ?orb_false_r, ?andb_true_r in Hform; bools; try discriminate.
     use_letter FN lower. exists 0. eexists.
@@ -188,7 +191,7 @@ Proof.
                   (odigit_optrun 3 sub ltac:(assumption) ltac:(assumption))
                   (odigit_optrun 2 bit ltac:(assumption) ltac:(assumption))
                   (odigit_optany cnt ltac:(assumption))) as P.
-    cbv zeta in P. rewrite U in P. unfold io_file in P. rewrite U in P. exact P.
+    cbv zeta in P. rewrite U in P. unfold io_file_ok, io_file in P. rewrite U in P. exact P.
   - (* O *) destruct flat; cbn [longer is_some negb andb orb odigit_run] in Hform, Hlong; rewrite ?orb_false_r, ?andb_true_r in Hform; bools; try discriminate.
     use_letter FO lower. exists 0. eexists.
     pose proof (parse_io _ file elem sub bit cnt (or_intror HL)
@@ -197,7 +200,7 @@ Proof.
                   (odigit_optrun 3 sub ltac:(assumption) ltac:(assumption))
                   (odigit_optrun 2 bit ltac:(assumption) ltac:(assumption))
                   (odigit_optany cnt ltac:(assumption))) as P.
-    cbv zeta in P. rewrite U in P. unfold io_file in P. rewrite U in P. exact P.
+    cbv zeta in P. rewrite U in P. unfold io_file_ok, io_file in P. rewrite U in P. exact P.
   - (* T *) destruct file as [f|]; destruct sub; destruct bit; destruct cnt; destruct flat; cbn [longer is_some negb andb orb odigit_run] in Hform, Hlong; rewrite ?orb_false_r, ?andb_true_r in Hform; bools; try discriminate.
     assert (Hmn : In mn mn_variants) by (apply (tc_spellings_variants FT), text_mem_In; assumption).
     destruct (mn_code mn Hmn) as [code Hcode].
@@ -217,19 +220,15 @@ Proof.
 Qed.
 
 (* ---------------------------------------------------------------- rejection inside the length limits *)
-Definition io_file_out (r : raw) : bool :=
-  is_io (r_ft r) && match r_file r with Some f => 255 <? num_of f | None => false end.
-
 Theorem reject_in_limits r :
-  raw_shape r -> spec_in_range r = false -> io_file_out r = false -> parse_tag (render_raw r) = PNone.
+  raw_shape r -> spec_in_range r = false -> parse_tag (render_raw r) = PNone.
 Proof.
-  intros Hs Hr Hio. destruct (parse_raw r Hs) as (code & name & P). rewrite P.
+  intros Hs Hr. destruct (parse_raw r Hs) as (code & name & P). rewrite P.
   assert (E : code_ranges r = false); [|rewrite E; reflexivity].
   destruct Hs as [Hform _]. clear P.
   destruct r as [ft lower file elem sub bit cnt flat mn].
-  unfold raw_form in Hform. unfold spec_in_range, zin in Hr. unfold io_file_out in Hio. unfold code_ranges, in_range, optrange, in_range.
+  unfold raw_form in Hform. unfold spec_in_range, zin in Hr. unfold code_ranges, in_range, optrange, in_range.
   cbn [r_ft r_lower r_file r_elem r_sub r_bit r_count r_flat r_mn] in *.
-  rewrite !num_of_dval in *.
   destruct ft; destruct file as [f|]; destruct flat; destruct bit as [b|];
     cbn [is_io is_some negb andb orb opt_text] in *; unfold num_of, dval in *;
     try discriminate; try lia;
@@ -394,17 +393,19 @@ Proof.
     - split; [intros y Hy; inversion Hy; subst; exact Rs|exact Vs].
     - split; [apply none_run|]. cbn. apply orb_false_iff in E. destruct E as [E _]. apply negb_false_iff in E. lia. }
   destruct Os as [Os Vos].
+  assert (Hfo : io_file_ok (ft_letter_ok ft (sp_lower sp)) ofile = true).
+  { subst ofile. unfold io_file_ok. destruct (sp_io_file sp); [|reflexivity]. rewrite Vf, IOF. lia. }
   destruct bit as [b|].
   - destruct (bit_piece (sp_pad_bit sp) b Hbit Hpb) as (Rb & Ob & Vb).
     pose proof (parse_io _ ofile _ osub (Some (render_num (sp_pad_bit sp) b)) None HL Of Re Os Rb none_any) as P. cbv zeta in P.
-    rewrite Ob, Ve, U, IOF, Vos in P. cbn [optval af_of cntval] in P. rewrite Vb in P.
+    rewrite Hfo, Ob, Ve, U, IOF, Vos in P. cbn [optval af_of cntval andb] in P. rewrite Vb in P.
     replace (in_range 0 255 elem && true) with true in P by (unfold in_range; lia).
     rend. subst ofile osub.
     destruct Hft as [E|E]; subst ft; cbn [is_io is_tc andb opt_text] in *; subst file;
       (destruct (sp_io_file sp); destruct (negb (sub =? 0) || sp_io_word sp); cbn [otext subpart] in P; eexists; exact P).
   - destruct (count_piece sp 1 ltac:(lia)) as [Oc Vc]. cbv zeta in Oc, Vc.
     pose proof (parse_io _ ofile _ osub None _ HL Of Re Os (none_run 2) Oc) as P. cbv zeta in P.
-    rewrite Ve, U, IOF, Vos, Vc in P. cbn [optval af_of optrange] in P.
+    rewrite Hfo, Ve, U, IOF, Vos, Vc in P. cbn [optval af_of optrange andb] in P.
     replace (in_range 0 255 elem && true) with true in P by (unfold in_range; lia).
     rend. subst ofile osub.
     destruct Hft as [E|E]; subst ft; cbn [is_io is_tc andb opt_text] in *; subst file;
@@ -509,4 +510,222 @@ Proof.
   - apply parse_addr_io; [tauto|assumption|assumption].
   - apply parse_addr_tc; [tauto|assumption|assumption].
   - apply parse_addr_tc; [tauto|assumption|assumption].
+Qed.
+
+(* ---------------------------------------------------------------- a file number of more than three digits *)
+Ltac use_letter_any :=
+  match goal with
+  | |- parse_tag ((if ?lower then lc (letter ?ft) else letter ?ft) :: _) = _ =>
+      let U := fresh "U" in let HL := fresh "HL" in
+      destruct (letter_facts ft lower) as [U HL]; cbv zeta in U, HL; unfold ft_letter_ok in U, HL
+  end.
+Ltac lfbn_of HL := unfold lfbn; first [left; exact HL | right; left; exact HL | right; right; left; exact HL | right; right; right; exact HL].
+
+Lemma body_opts (sub bit cnt : option text) :
+  optany sub -> optany bit -> optany cnt -> Forall body_char (subpart sub ++ bitpart bit ++ cntpart cnt).
+Proof.
+  intros Hs Hb Hc. destruct sub; destruct bit; destruct cnt; split_opts; cbn [subpart bitpart cntpart app]; body.
+Qed.
+
+Theorem reject_long_file r : raw_form r = true -> longer 3 (r_file r) = true -> parse_tag (render_raw r) = PNone.
+Proof.
+  intros Hform Hlong.
+  destruct r as [ft lower file elem sub bit cnt flat mn].
+  unfold raw_form in Hform. cbn [r_ft r_lower r_file r_elem r_sub r_bit r_count r_flat r_mn] in *.
+  destruct file as [f|]; [|discriminate]. cbn [longer] in Hlong. apply Nat.ltb_lt in Hlong.
+  cbn [odigit_run is_some negb andb] in Hform.
+  assert (Hparts : forall flat', (digit_run elem || flat') && digit_run f && odigit_run sub && odigit_run bit && odigit_run cnt = true ->
+            anyrun f /\ optany sub /\ optany bit /\ optany cnt /\ (flat' = false -> anyrun elem)).
+  { intros flat' H. bools.
+    split; [apply digit_run_anyrun; assumption|].
+    split; [apply odigit_optany; assumption|].
+    split; [apply odigit_optany; assumption|].
+    split; [apply odigit_optany; assumption|].
+    intros E. subst flat'. apply digit_run_anyrun.
+    match goal with H : digit_run elem || false = true |- _ => rewrite orb_false_r in H; exact H end. }
+  unfold render_raw. cbn [r_ft r_lower r_file r_elem r_sub r_bit r_count r_flat r_mn opt_text].
+  destruct ft.
+  1,3,4: (apply andb_true_iff in Hform; destruct Hform as [Hform Hx]; destruct (Hparts _ Hform) as (Af & As & Ab & Ac & Ae);
+          destruct flat; [bools; discriminate|]; specialize (Ae eq_refl);
+          use_letter_any; apply long_file_lfbn; [lfbn_of HL|exact Af|exact Hlong|];
+          constructor; [right; unfold punct; tauto|]; apply Forall_app; split; [apply anyrun_body; exact Ae|];
+          apply (body_opts sub bit cnt); assumption).
+  - (* B *) apply andb_true_iff in Hform. destruct Hform as [Hform Hx]. destruct (Hparts _ Hform) as (Af & As & Ab & Ac & Ae).
+    destruct flat.
+    + use_letter_any. apply long_file_lfbn; [lfbn_of HL|exact Af|exact Hlong|].
+      constructor; [right; unfold punct; tauto|]. apply Forall_app. split.
+      * destruct bit as [n|]; cbn [opt_text]; [apply anyrun_body; apply Ab; reflexivity|constructor].
+      * apply (body_opts None None cnt); [intros y Hy; discriminate|intros y Hy; discriminate|exact Ac].
+    + specialize (Ae eq_refl). use_letter_any. apply long_file_lfbn; [lfbn_of HL|exact Af|exact Hlong|].
+      constructor; [right; unfold punct; tauto|]. apply Forall_app. split; [apply anyrun_body; exact Ae|].
+      apply (body_opts sub bit cnt); assumption.
+  - (* S *) bools. discriminate.
+  - (* I *) apply andb_true_iff in Hform. destruct Hform as [Hform Hx]. destruct (Hparts _ Hform) as (Af & As & Ab & Ac & Ae).
+    destruct flat; [discriminate|]. specialize (Ae eq_refl).
+    use_letter_any. apply long_file_io; [left; exact HL|exact Af|exact Hlong|].
+    constructor; [right; unfold punct; tauto|]. apply Forall_app. split; [apply anyrun_body; exact Ae|].
+    apply (body_opts sub bit cnt); assumption.
+  - (* O *) apply andb_true_iff in Hform. destruct Hform as [Hform Hx]. destruct (Hparts _ Hform) as (Af & As & Ab & Ac & Ae).
+    destruct flat; [discriminate|]. specialize (Ae eq_refl).
+    use_letter_any. apply long_file_io; [right; exact HL|exact Af|exact Hlong|].
+    constructor; [right; unfold punct; tauto|]. apply Forall_app. split; [apply anyrun_body; exact Ae|].
+    apply (body_opts sub bit cnt); assumption.
+  - (* T *) apply andb_true_iff in Hform. destruct Hform as [Hform Hx]. destruct (Hparts _ Hform) as (Af & As & Ab & Ac & Ae).
+    bools. destruct flat; [discriminate|]. specialize (Ae eq_refl).
+    use_letter_any. apply long_file_tc; [right; exact HL|exact Af|exact Hlong|exact Ae|].
+    apply (tc_spellings_variants FT), text_mem_In. assumption.
+  - (* C *) apply andb_true_iff in Hform. destruct Hform as [Hform Hx]. destruct (Hparts _ Hform) as (Af & As & Ab & Ac & Ae).
+    bools. destruct flat; [discriminate|]. specialize (Ae eq_refl).
+    use_letter_any. apply long_file_tc; [left; exact HL|exact Af|exact Hlong|exact Ae|].
+    apply (tc_spellings_variants FC), text_mem_In. assumption.
+Qed.
+
+(* ---------------------------------------------------------------- an element / word / bit run longer than the grammar allows *)
+Lemma longrun_of n ds : digit_run ds = true -> (n <? length ds)%nat = true -> longrun n ds.
+Proof. intros H L. split; [exact (proj1 (digit_run_anyrun ds H))|apply Nat.ltb_lt; exact L]. Qed.
+Lemma run_of n ds : digit_run ds = true -> (n <? length ds)%nat = false -> run n ds.
+Proof. intros H L. apply digit_run_run; [exact H|apply Nat.ltb_ge; exact L]. Qed.
+Lemma longrun_body n ds : longrun n ds -> Forall body_char ds.
+Proof. intros [H _]. eapply Forall_impl; [|exact H]. intros c Hc. left. exact Hc. Qed.
+Lemma optrun_of n o : odigit_run o = true -> longer n o = false -> optrun n o.
+Proof. apply odigit_optrun. Qed.
+
+Ltac use_letter_any0 lower :=
+  match goal with
+  | |- context [(if lower then lc (letter ?ft) else letter ?ft)] =>
+      let U := fresh "U" in let HL := fresh "HL" in
+      destruct (letter_facts ft lower) as [U HL]; cbv zeta in U, HL; unfold ft_letter_ok in U, HL
+  end.
+
+Ltac bodies :=
+  repeat first
+    [ apply Forall_nil
+    | assumption
+    | apply body_opts; assumption
+    | apply body_cnt; assumption
+    | apply Forall_cons; [right; unfold punct; tauto|]
+    | apply Forall_app; split
+    | eapply longrun_body; eassumption
+    | eapply run_body; eassumption
+    | eapply anyrun_body; eassumption ].
+
+Ltac anyruns :=
+  repeat match goal with
+  | H : odigit_run (Some ?x) = true |- _ => cbn [odigit_run] in H
+  | H : odigit_run None = true |- _ => clear H
+  | H : digit_run ?x = true |- _ => lazymatch goal with H' : anyrun x |- _ => fail | _ => pose proof (digit_run_anyrun x H) end
+  end.
+Ltac concrete bit cnt := destruct bit as [?b|]; destruct cnt as [?c|]; anyruns.
+
+Lemma overlong_lfbn L f elem bit cnt :
+  lfbn L -> run 3 f -> digit_run elem = true -> odigit_run bit = true -> odigit_run cnt = true ->
+  (3 <? length elem)%nat || longer 2 bit = true ->
+  parse_tag (L :: f ++ 58 :: elem ++ [] ++ match bit with Some b => 47 :: b | None => [] end
+                                     ++ match cnt with Some c => 123 :: c ++ [125] | None => [] end) = PNone.
+Proof.
+  intros HL Rf De Db Dc Hlong. cbn [app].
+  destruct (3 <? length elem)%nat eqn:Ee.
+  - pose proof (longrun_of 3 elem De Ee) as Le.
+    eapply long_lfbn; [exact HL | exact Rf | | reflexivity | apply lfbn_long_elem; [lia | exact HL | exact Rf | exact Le]].
+    concrete bit cnt; bodies.
+  - cbn [orb] in Hlong. destruct bit as [b|]; [|discriminate]. cbn [longer odigit_run] in *.
+    pose proof (run_of 3 elem De Ee) as Re. pose proof (longrun_of 2 b Db Hlong) as Lb.
+    eapply long_lfbn; [exact HL | exact Rf | | reflexivity | apply lfbn_long_bit; [lia | exact HL | exact Rf | exact Re | exact Lb]].
+    destruct cnt as [c|]; anyruns; bodies.
+Qed.
+
+Lemma overlong_s L elem bit cnt :
+  lcl L 115 -> digit_run elem = true -> odigit_run bit = true -> odigit_run cnt = true ->
+  (3 <? length elem)%nat || longer 2 bit = true ->
+  parse_tag (L :: [] ++ 58 :: elem ++ [] ++ match bit with Some b => 47 :: b | None => [] end
+                                     ++ match cnt with Some c => 123 :: c ++ [125] | None => [] end) = PNone.
+Proof.
+  intros HL De Db Dc Hlong. cbn [app].
+  destruct (3 <? length elem)%nat eqn:Ee.
+  - pose proof (longrun_of 3 elem De Ee) as Le.
+    apply long_s; [exact HL | | apply s_long_elem; [lia | exact HL | exact Le]].
+    concrete bit cnt; bodies.
+  - cbn [orb] in Hlong. destruct bit as [b|]; [|discriminate]. cbn [longer odigit_run] in *.
+    pose proof (run_of 3 elem De Ee) as Re. pose proof (longrun_of 2 b Db Hlong) as Lb.
+    apply long_s; [exact HL | | apply s_long_bit; [lia | exact HL | exact Re | exact Lb]].
+    destruct cnt as [c|]; anyruns; bodies.
+Qed.
+
+Lemma overlong_io L file elem sub bit cnt :
+  io L -> odigit_run file = true -> longer 3 file = false -> digit_run elem = true -> odigit_run sub = true ->
+  odigit_run bit = true -> odigit_run cnt = true ->
+  (3 <? length elem)%nat || longer 3 sub || longer 2 bit = true ->
+  parse_tag (L :: opt_text file ++ 58 :: elem ++ match sub with Some w => 46 :: w | None => [] end
+                 ++ match bit with Some b => 47 :: b | None => [] end
+                 ++ match cnt with Some c => 123 :: c ++ [125] | None => [] end) = PNone.
+Proof.
+  intros HL Df Hfile De Ds Db Dc Hlong.
+  pose proof (optrun_of 3 file Df Hfile) as Of.
+  assert (Bf : Forall body_char (opt_text file)) by (destruct file; cbn [opt_text]; [apply anyrun_body, digit_run_anyrun; exact Df|constructor]).
+  change (opt_text file) with (otext file) in *.
+  destruct (3 <? length elem)%nat eqn:Ee.
+  - pose proof (longrun_of 3 elem De Ee) as Le.
+    apply long_io; [exact HL | | apply (io_long_elem _ _ file); [lia | exact HL | exact Of | exact Le]].
+    destruct sub as [w|]; concrete bit cnt; bodies.
+  - cbn [orb] in Hlong. pose proof (run_of 3 elem De Ee) as Re. destruct (longer 3 sub) eqn:Es.
+    + destruct sub as [w|]; [|discriminate]. cbn [longer odigit_run] in *. pose proof (longrun_of 3 w Ds Es) as Lw.
+      apply long_io; [exact HL | | apply (io_long_sub _ _ file); [lia | exact HL | exact Of | exact Re | exact Lw]].
+      concrete bit cnt; bodies.
+    + cbn [orb] in Hlong. destruct bit as [b|]; [|discriminate]. cbn [longer odigit_run] in *.
+      pose proof (longrun_of 2 b Db Hlong) as Lb. pose proof (optrun_of 3 sub Ds Es) as Os.
+      change (match sub with Some w => 46 :: w | None => [] end) with (subpart sub).
+      apply long_io; [exact HL | | apply (io_long_bit _ _ file _ sub); [lia | exact HL | exact Of | exact Re | exact Os | exact Lb]].
+      destruct sub as [w|]; destruct cnt as [c|]; anyruns; cbn [subpart]; bodies.
+Qed.
+
+Theorem reject_overlong r :
+  raw_form r = true -> longer 3 (r_file r) = false -> overlong_field r = true -> parse_tag (render_raw r) = PNone.
+Proof.
+  intros Hform Hfile Hlong.
+  destruct r as [ft lower file elem sub bit cnt flat mn].
+  unfold raw_form in Hform. unfold overlong_field in Hlong.
+  cbn [r_ft r_lower r_file r_elem r_sub r_bit r_count r_flat r_mn] in *.
+  unfold render_raw. cbn [r_ft r_lower r_file r_elem r_sub r_bit r_count r_flat r_mn].
+  apply andb_true_iff in Hform. destruct Hform as [Hform Hx].
+  apply andb_true_iff in Hform. destruct Hform as [Hform Dc].
+  apply andb_true_iff in Hform. destruct Hform as [Hform Db].
+  apply andb_true_iff in Hform. destruct Hform as [Hform Ds].
+  apply andb_true_iff in Hform. destruct Hform as [De Df].
+  destruct ft.
+  - (* N *) destruct file as [f|]; [|discriminate]. destruct flat; [bools; discriminate|]. destruct sub; [bools; discriminate|].
+    rewrite orb_false_r in De. cbn [longer odigit_run negb andb orb opt_text] in *. rewrite orb_false_r in Hlong.
+    use_letter_any0 lower. apply overlong_lfbn; [lfbn_of HL|exact (run_of 3 f Df Hfile)|assumption..].
+  - (* B *) destruct file as [f|]; [|discriminate]. destruct sub; [bools; discriminate|].
+    cbn [longer odigit_run negb andb orb opt_text is_some] in *. use_letter_any0 lower.
+    destruct flat.
+    + destruct bit as [n|]; [|discriminate]. cbn [longer negb andb orb opt_text odigit_run] in *.
+      apply long_flat; [exact HL | exact (run_of 3 f Df Hfile) | apply longrun_of; assumption|].
+      destruct cnt as [c|]; anyruns; bodies.
+    + rewrite orb_false_r in De. cbn [negb andb orb] in Hlong. rewrite orb_false_r in Hlong.
+      apply overlong_lfbn; [lfbn_of HL|exact (run_of 3 f Df Hfile)|assumption..].
+  - (* F *) destruct file as [f|]; [|discriminate]. destruct flat; [bools; discriminate|]. destruct sub; [bools; discriminate|].
+    rewrite orb_false_r in De. cbn [longer odigit_run negb andb orb opt_text] in *. rewrite orb_false_r in Hlong.
+    use_letter_any0 lower. apply overlong_lfbn; [lfbn_of HL|exact (run_of 3 f Df Hfile)|assumption..].
+  - (* L *) destruct file as [f|]; [|discriminate]. destruct flat; [bools; discriminate|]. destruct sub; [bools; discriminate|].
+    rewrite orb_false_r in De. cbn [longer odigit_run negb andb orb opt_text] in *. rewrite orb_false_r in Hlong.
+    use_letter_any0 lower. apply overlong_lfbn; [lfbn_of HL|exact (run_of 3 f Df Hfile)|assumption..].
+  - (* S *) destruct file; [bools; discriminate|]. destruct flat; [bools; discriminate|]. destruct sub; [bools; discriminate|].
+    rewrite orb_false_r in De. cbn [longer odigit_run negb andb orb opt_text] in *. rewrite orb_false_r in Hlong.
+    use_letter_any0 lower. apply overlong_s; assumption.
+  - (* I *) destruct flat; [discriminate|]. rewrite orb_false_r in De. cbn [negb andb] in Hlong.
+    use_letter_any0 lower. apply overlong_io; try assumption. left; exact HL.
+  - (* O *) destruct flat; [discriminate|]. rewrite orb_false_r in De. cbn [negb andb] in Hlong.
+    use_letter_any0 lower. apply overlong_io; try assumption. right; exact HL.
+  - (* T *) destruct file as [f|]; [|bools; discriminate]. destruct flat; [bools; discriminate|].
+    destruct sub; [bools; discriminate|]. destruct bit; [bools; discriminate|].
+    rewrite orb_false_r in De. cbn [negb andb longer orb opt_text odigit_run] in *. rewrite !orb_false_r in Hlong.
+    use_letter_any0 lower. bools.
+    apply long_tc; [right; exact HL|exact (run_of 3 f Df Hfile)|apply longrun_of; assumption|].
+    apply (tc_spellings_variants FT), text_mem_In. assumption.
+  - (* C *) destruct file as [f|]; [|bools; discriminate]. destruct flat; [bools; discriminate|].
+    destruct sub; [bools; discriminate|]. destruct bit; [bools; discriminate|].
+    rewrite orb_false_r in De. cbn [negb andb longer orb opt_text odigit_run] in *. rewrite !orb_false_r in Hlong.
+    use_letter_any0 lower. bools.
+    apply long_tc; [left; exact HL|exact (run_of 3 f Df Hfile)|apply longrun_of; assumption|].
+    apply (tc_spellings_variants FC), text_mem_In. assumption.
 Qed.
